@@ -189,6 +189,8 @@ def random_steps(rng, n):
         op = rng.choice(['slice', 'slice', 'take', 'mask', 'concat_self', 'copy', 'pickle'])
         if op == 'slice':
             a = rng.randint(0, n)
+            if n >= 9 and rng.random() < 0.5:
+                a = 8 * rng.randint(1, n // 8)      # byte-aligned start: validity bitmaps are read per byte
             b = rng.randint(a, n)
             step = rng.choice([None, None, None, 2, -1])
             if step == -1:
@@ -236,6 +238,8 @@ class Case:
 
 
 def case(kind, rng, derive=True, **kw):
+    if derive and 'n' not in kw and rng.random() < 0.15:
+        kw = dict(kw, n=rng.choice([9, 12, 17, 20, 24]))     # long enough for slices starting at array offset 8, 16
     els = elements(kind, rng, **kw)
     steps = random_steps(rng, len(els)) if derive else []
     return Case(kind, els, steps)
